@@ -76,4 +76,29 @@ def decodeCore (url : Bool) : List Byte → Option (List Byte)
 def decode (url : Bool) (s : List Byte) : Option (List Byte) :=
   decodeCore url (s.filter (fun c => !isNewline c))
 
+/-- what `DecodeString` RETURNS besides the error: the bytes decoded before the error (all complete groups before the
+failing one; a correctly padded last group followed by garbage still contributes its bytes). `(bytes, ok)`. -/
+def decodeCoreP (url : Bool) : List Byte → List Byte × Bool
+  | [] => ([], true)
+  | c0 :: c1 :: c2 :: c3 :: rest =>
+    match decChar url c0, decChar url c1 with
+    | some a, some b =>
+      match decChar url c2 with
+      | some c =>
+        match decChar url c3 with
+        | some d =>
+          let (x, y, z) := join4 a b c d
+          let (r, ok) := decodeCoreP url rest
+          (x :: y :: z :: r, ok)
+        | none =>
+          if c3 = pad then let (x, y, _) := join4 a b c 0; ([x, y], decide (rest = [])) else ([], false)
+      | none =>
+        if c2 = pad ∧ c3 = pad then let (x, _, _) := join4 a b 0 0; ([x], decide (rest = [])) else ([], false)
+    | _, _ => ([], false)
+  | _ => ([], false)
+
+/-- `DecodeString` as Go returns it: bytes (possibly partial) and whether `err == nil` -/
+def decodeP (url : Bool) (s : List Byte) : List Byte × Bool :=
+  decodeCoreP url (s.filter (fun c => !isNewline c))
+
 end Tongo.Base64
